@@ -587,4 +587,126 @@ def fastSplit (units : List Nat) (raw : List (List Int)) (lim : Option Nat) : Li
     let (acc, hit, last) := fastSplitLoop units lim raw 0 0 []
     if hit then acc else acc ++ [some (sub units last units.length)]
 
+/-! ### GetSubstitution, spec side (ECMA-262 22.1.3.19.1, ES2024 wording)
+
+`templateRemainder` is consumed from the front ("starts with …").  `captures` does NOT contain the whole match
+(captures[0] is group 1), `named = none` ⇔ namedCaptures is undefined, a lookup yielding `none` ⇔ the property is
+undefined (replaced by the empty string). -/
+
+def digitVal (c : Nat) : Nat := c - 48
+
+/-- StringIndexOf(templateRemainder, ">", 0) -/
+def indexOfGt : List Nat → Option Nat
+  | [] => none
+  | c :: rest => if c == 62 then some 0 else (indexOfGt rest).map (· + 1)
+
+def getSubstitution (units : List Nat) (position : Nat) (matched : List Nat) (captures : List (Option (List Nat)))
+    (named : Option (List Nat → Option (List Nat))) : Nat → List Nat → List Nat
+  | 0, _ => []
+  | _ + 1, [] => []
+  | fuel + 1, c :: rest =>
+    if c != 36 then c :: getSubstitution units position matched captures named fuel rest       -- step 5.h: any other char
+    else match rest with
+      | [] => [36]
+      | ch :: rest2 =>
+        if ch == 36 then 36 :: getSubstitution units position matched captures named fuel rest2            -- "$$"
+        else if ch == 96 then                                                                               -- "$`"
+          sub units 0 position ++ getSubstitution units position matched captures named fuel rest2
+        else if ch == 38 then matched ++ getSubstitution units position matched captures named fuel rest2   -- "$&"
+        else if ch == 39 then                                                                               -- "$'"
+          sub units (min (position + matched.length) units.length) units.length ++
+            getSubstitution units position matched captures named fuel rest2
+        else if isDigit ch then                                                                             -- "$n", "$nn"
+          let captureLen := captures.length
+          let twoDigits := match rest2 with | d2 :: _ => isDigit d2 | [] => false
+          let idx2 := digitVal ch * 10 + digitVal (rest2.headD 0)
+          -- "If index > captureLen and digitCount = 2, set digitCount to 1"
+          let digitCount := if twoDigits && Nat.ble idx2 captureLen then 2 else 1
+          let index := if digitCount == 2 then idx2 else digitVal ch
+          let after := if digitCount == 2 then rest2.drop 1 else rest2
+          let ref := 36 :: ch :: (if digitCount == 2 then [rest2.headD 0] else [])
+          (if Nat.ble 1 index && Nat.ble index captureLen then (captures.getD (index - 1) none).getD [] else ref) ++
+            getSubstitution units position matched captures named fuel after
+        else if ch == 60 then                                                                               -- "$<"
+          match named with
+          | none => 36 :: 60 :: getSubstitution units position matched captures named fuel rest2
+          | some lookup =>
+            match indexOfGt rest2 with
+            | none => 36 :: 60 :: getSubstitution units position matched captures named fuel rest2
+            | some g => (lookup (rest2.take g)).getD [] ++
+                getSubstitution units position matched captures named fuel (rest2.drop (g + 1))
+        else 36 :: getSubstitution units position matched captures named fuel rest                          -- lone "$"
+
+/-! ## 5. engine routing (regexp.go `findSubmatchIndex`, `findAllSubmatchIndex`)
+
+The decision structure of the two routing functions is regenerated from the Go source on every run
+(extract/c20.go → Generated/C20_Routing.lean) as a tree over the vocabulary below and proved equal to the hand
+model by the Tie theorems. -/
+
+inductive RCond where
+  | noLinear        -- p.regexpWrapper == nil
+  | startZero       -- start == 0
+  | startNonZero    -- start != 0
+  | asciiSubject    -- u == nil  (after devirtualizeString)
+  | limitOne        -- limit == 1
+  | unicodeFlag     -- p.unicode
+  | pmOk            -- pm != nil  (buildUTF8PosMap succeeded: no lone surrogate)
+  | noMatch         -- result.indexes == nil
+  deriving DecidableEq, Repr
+
+inductive RCall where
+  | r2All           -- p.regexp2Wrapper.findAllSubmatchIndex(s, start, limit, sticky, p.unicode)
+  | goAllAscii      -- p.regexpWrapper.findAllSubmatchIndex(string(a), limit, sticky)
+  | linearSingle    -- [p.regexpWrapper.findSubmatchIndexUnicode(u, p.unicode)]
+  | goAllUtf8       -- p.regexpWrapper.findAllSubmatchIndex(str, limit, sticky)  + position map
+  | r2Find          -- p.regexp2Wrapper.findSubmatchIndex(s, start, p.unicode, p.global || p.sticky)
+  | linearFind      -- p.regexpWrapper.findSubmatchIndex(s, p.unicode)
+  | nilResult
+  | other (text : String)
+  deriving DecidableEq, Repr
+
+inductive RNode where
+  | ret (c : RCall)
+  | ite (c : RCond) (t e : RNode)
+  | bad (why : String)
+  deriving Repr
+
+def evalNode (env : RCond → Bool) : RNode → RCall
+  | .ret c => c
+  | .ite c t e => if env c then evalNode env t else evalNode env e
+  | .bad why => .other why
+
+structure RouteIn where
+  hasLinear : Bool
+  startZero : Bool
+  ascii : Bool
+  limitOne : Bool
+  unicode : Bool
+  pmOk : Bool
+  noMatch : Bool := false
+
+def RouteIn.env (x : RouteIn) : RCond → Bool
+  | .noLinear => !x.hasLinear
+  | .startZero => x.startZero
+  | .startNonZero => !x.startZero
+  | .asciiSubject => x.ascii
+  | .limitOne => x.limitOne
+  | .unicodeFlag => x.unicode
+  | .pmOk => x.pmOk
+  | .noMatch => x.noMatch
+
+/-- hand model of `regexpPattern.findAllSubmatchIndex` routing (what run/c20.py `find_path` and the raw-list
+correspondence assume) -/
+def findAllRoute (x : RouteIn) : RCall :=
+  if !x.hasLinear then .r2All
+  else if !x.startZero then .r2All
+  else if x.ascii then .goAllAscii
+  else if x.limitOne then (if x.noMatch then .nilResult else .linearSingle)
+  else if x.unicode && x.pmOk then .goAllUtf8
+  else .r2All
+
+/-- hand model of `regexpPattern.findSubmatchIndex` routing: linear engine only from start 0 -/
+def findRoute (x : RouteIn) : RCall :=
+  if !x.hasLinear then .r2Find else if !x.startZero then .r2Find else .linearFind
+
 end GojaModel.C20
